@@ -223,6 +223,12 @@ def gen_op(rng, kind):
             s = rng.choice([0, 0, 0, 1, 0x4300])
             e = s + rng.choice([0x8000, 0x8000, 0x10000, 0x8000 - 0x4300,
                                 0x4301, 0x8020])
+        elif r < 0.77:
+            # start addresses that only fit in more than 16 (or 15) bits
+            s = rng.choice([0x10000, 0x10000, 0x8000, 0x20000, 2**32]) + \
+                rng.choice([0, 0, 1, 0x1fff, 0x2000, 0x3100, 0x42ff,
+                            rng.randint(0, 0x4300)])
+            e = s + rng.choice([0, 1, 2, 16, 256])
         elif r < 0.8:
             s = rng.randint(0, 0x4300)
             e = 0x4300 + rng.randint(1, 40)
@@ -263,7 +269,9 @@ def gen_op(rng, kind):
     if kind in ('gfx.set_sprite', 'map.set_rect_tiles') and \
             rng.random() < 0.4:
         a['rows_as'] = rng.choice(['tuple', 'iter', 'gen', 'bytearray',
-                                   'reused-buffer'])
+                                   'reused-buffer', 'array-H', 'array-B',
+                                   'memoryview-H', 'memoryview-B',
+                                   'memoryview-i'])
     return {'op': kind, 'args': a}
 
 
@@ -289,15 +297,23 @@ def gen_init(rng):
             ['zero', 'empty', {'$fill': rng.choice([0xff, 0x80, 0x7f, 0x0f,
                                                     0xf0, 0x40, 1])}] +
             [rng.randint(1, 10**9)] * 4)
+    if mode == 'p8' and rng.random() < 0.5:
+        # only the first rows of some sections hold data (the file then ends
+        # those sections early, as PICO-8 writes them)
+        for k in refcodec.REGIONS:
+            if rng.random() < 0.6:
+                regions[k] = {'$head': rng.randint(1, 10**9),
+                              'rows': rng.choice([0, 1, 2, 5, 16, 31])}
     init = {'mode': mode, 'regions': regions,
             'version': rng.choice([8, 16, 33, 33, 0, 4, 5, 15, 41]),
             'warnings': rng.choice(['default'] * 3 + ['error']),
-            'bystander': rng.choice(['fresh', 'fresh', 'clone'])}
+            'bystander': rng.choice(['fresh', 'fresh', 'clone', 'reload'])}
     if mode == 'p8':
         order = ['gfx', 'label', 'gff', 'map', 'sfx', 'music']
         if rng.random() < 0.4:
             rng.shuffle(order)
-        init['p8_style'] = {'omit_empty': rng.random() < 0.5,
+        init['p8_style'] = {'strip_trailing_empty': rng.random() < 0.6,
+                            'omit_empty': rng.random() < 0.5,
                             'order': order if order != [
                                 'gfx', 'label', 'gff', 'map', 'sfx', 'music']
                             else None}
@@ -538,6 +554,16 @@ def _rows(rows, a):
         return [iter(list(r)) for r in rows]
     if kind == 'gen':
         return ((v for v in r) for r in rows)
+    if kind in ('array-H', 'array-B', 'memoryview-H', 'memoryview-B',
+                'memoryview-i'):
+        # typed arrays and (zero-copy) views of them: items are ints, though
+        # wider than a byte in memory
+        import array
+        code = kind[-1]
+        arrs = [array.array(code, list(r)) for r in rows]
+        if kind.startswith('memoryview'):
+            return [memoryview(x) for x in arrs]
+        return arrs
     if kind == 'reused-buffer':
         # a scanline producer that refills and yields one and the same buffer
         def scan():
@@ -664,17 +690,33 @@ def _execute(sc):
         g, cart = _build_game(w, sc['init'])
         m = models.MemModel(refcodec.flat_memory(cart))
         if _flat(g) != bytes(m.m):
-            # the loader disagrees with the reference codec: a codec question
-            # (C03/C04/C16), not this engine's; the run is uninformative
-            res['informative'] = False
-            ev.append(('init-mismatch',))
-            return res
+            short = _sizes(g) != EXPECTED_SIZES and all(
+                bytes(getattr(g, k)._data) == cart[k][:len(getattr(g, k)._data)]
+                for k in refcodec.REGIONS)
+            if short:
+                # the bytes that are there are right, but a region is not as
+                # long as the memory map says: every operation below is
+                # still in contract, and is judged as usual
+                core.bump(res['probes'], 'start-state-with-short-region')
+            else:
+                # the loader disagrees with the reference codec: a codec
+                # question (C03/C04/C16), not this engine's; the run is
+                # uninformative
+                res['informative'] = False
+                ev.append(('init-mismatch',))
+                return res
         changed_any = False
         # a second game built the same way must stay as it is (no sharing of
         # buffers between instances), and so must this game's label
-        g2, _cart2 = _build_game(w, dict(sc['init'], mode='bytes')
-                                 if sc['init']['mode'] != 'empty'
-                                 else sc['init'])
+        if sc['init'].get('bystander') == 'reload' and \
+                sc['init']['mode'] in ('p8', 'png'):
+            # the very same file loaded a second time
+            g2, _cart2 = _build_game(w, sc['init'])
+            core.bump(res['probes'], 'bystander-loaded-from-the-same-file')
+        else:
+            g2, _cart2 = _build_game(w, dict(sc['init'], mode='bytes')
+                                     if sc['init']['mode'] != 'empty'
+                                     else sc['init'])
         if sc['init'].get('bystander') == 'clone':
             # built from this game's own bytes: must still be independent
             from pico8.gfx.gfx import Gfx
